@@ -158,9 +158,15 @@ def make_cert(cns=("alice",), eku="client", layout="separate", issuer_cn=None):
          .not_valid_before(datetime.datetime(2020, 1, 1))
          .not_valid_after(datetime.datetime(2040, 1, 1)))
     if eku is not None:
+        ANY = x509.ObjectIdentifier("2.5.29.37.0")       # anyExtendedKeyUsage
         usages = {"server": [ExtendedKeyUsageOID.SERVER_AUTH],
                   "client": [ExtendedKeyUsageOID.CLIENT_AUTH],
-                  "both": [ExtendedKeyUsageOID.SERVER_AUTH, ExtendedKeyUsageOID.CLIENT_AUTH]}[eku]
+                  "both": [ExtendedKeyUsageOID.SERVER_AUTH, ExtendedKeyUsageOID.CLIENT_AUTH],
+                  # usages that are not client authentication
+                  "any": [ANY], "server+any": [ExtendedKeyUsageOID.SERVER_AUTH, ANY],
+                  "other": [ExtendedKeyUsageOID.CODE_SIGNING, ExtendedKeyUsageOID.EMAIL_PROTECTION,
+                            ExtendedKeyUsageOID.OCSP_SIGNING, ExtendedKeyUsageOID.TIME_STAMPING],
+                  "client+any": [ExtendedKeyUsageOID.CLIENT_AUTH, ANY]}[eku]
         b = b.add_extension(x509.ExtendedKeyUsage(usages), critical=False)
     cert = b.sign(_cert_key, hashes.SHA256())
     der = cert.public_bytes(serialization.Encoding.DER)
